@@ -2,7 +2,7 @@
 //! index next to the VecModel.
 
 use crate::model::{Fail, Tally, VecModel, check_index};
-use crate::sut::{Cfg, MemStore, Write, flush_journal, load};
+use crate::sut::{Cfg, Fault, MemStore, Proto, Write, checkpoint_pass, flush_journal, load};
 use anda_db_hnsw::{HnswError, HnswIndex};
 use serde::{Deserialize, Serialize};
 
@@ -111,6 +111,8 @@ pub struct World {
     /// variant an id was last inserted with (classifies re-inserts)
     pub last_variant: std::collections::BTreeMap<u64, u8>,
     pub clock: u64,
+    /// which public checkpoint protocol `FlushLoad` (and the initial image) goes through
+    pub proto: Proto,
 }
 
 impl World {
@@ -118,10 +120,15 @@ impl World {
     /// thread; like the database wrapper's `Hnsw::new`, the empty index is
     /// flushed once so that a durable image always exists.
     pub fn new(cfg: &Cfg, seed: u64) -> Result<World, Fail> {
+        World::new_with(cfg, seed, Proto::FlushWith)
+    }
+
+    /// The same, every complete flush going through `proto`.
+    pub fn new_with(cfg: &Cfg, seed: u64, proto: Proto) -> Result<World, Fail> {
         anda_db_utils::verif::set_random_seed(Some(seed));
         let index = cfg.new_index();
         let mut store = MemStore::default();
-        let journal = flush_journal(&index, 1).map_err(|e| Fail::new("flush_error", e))?;
+        let journal = complete_pass(&index, proto, 1)?;
         store.apply_all(&journal);
         Ok(World {
             cfg: cfg.clone(),
@@ -133,6 +140,7 @@ impl World {
             window: Vec::new(),
             last_variant: Default::default(),
             clock: 1,
+            proto,
         })
     }
 
@@ -205,7 +213,7 @@ impl World {
     /// Runs the complete flush on the live index (the index commits its
     /// watermarks) and returns the record without touching `self.store`.
     pub fn flush_record(&mut self) -> Result<FlushRecord, Fail> {
-        let journal = flush_journal(&self.index, self.clock).map_err(|e| Fail::new("flush_error", e))?;
+        let journal = complete_pass(&self.index, self.proto, self.clock)?;
         Ok(FlushRecord {
             before: self.store.clone(),
             journal,
@@ -217,6 +225,19 @@ impl World {
 
     pub fn check(&self, tally: &mut Tally) -> Result<(), Fail> {
         check_index(&self.index, self.cfg.metric, self.cfg.dim, &self.model, None, tally)
+    }
+}
+
+/// One complete, fault-free checkpoint pass (persist step + purge) through
+/// `proto`; the writes in issue order.
+pub fn complete_pass(index: &HnswIndex, proto: Proto, now_ms: u64) -> Result<Vec<Write>, Fail> {
+    if proto == Proto::FlushWith {
+        return flush_journal(index, now_ms).map_err(|e| Fail::new("flush_error", e));
+    }
+    let pass = checkpoint_pass(index, proto, now_ms, Fault::None);
+    match pass.error {
+        Some(e) => Err(Fail::new("flush_error", format!("{e} failed without any injected fault"))),
+        None => Ok(pass.writes),
     }
 }
 
